@@ -1,0 +1,32 @@
+//go:build verif
+
+package batched
+
+import (
+	. "github.com/cloudflare/pat-go/internal/vspec"
+	"github.com/cloudflare/pat-go/quicwire"
+	"github.com/cloudflare/pat-go/tokens"
+	"golang.org/x/crypto/cryptobyte"
+)
+
+var _ = quicwire.MaxVarint
+var _ tokens.Token
+var _ cryptobyte.String
+var _ = Vassert
+
+// TokenResponses (draft-ietf-privacypass-batched-tokens): a QUIC-varint length followed by entries, each
+// either 00 (absent) or 01 || token_type (2) || token response (145 bytes for type 1, 256 for type 2).
+
+//@ func UnmarshalBatchedTokenResponses(data []byte) (resps [][]byte, err error)
+//@ props C03 C04 C05 C16
+//@ let in = string(data)
+//@ ensures err == nil ==> quicwire.ConsumeVarintOK(in) && quicwire.ConsumeVarintValue(in) <= uint64(len(data)-quicwire.ConsumeVarintLen(data[0]))
+//@ ensures err != nil ==> resps == nil
+//@ assigns none
+//@ alloc 64*len(data) + 4096
+//@ loop 0 vars(token_responses_string cryptobyte.String, token_responses [][]byte)
+//@   invariant len(token_responses_string) <= len(data)
+//@   invariant cap(token_responses) == 0 || fresh(token_responses)
+//@   invariant len(token_responses) <= len(data)-len(token_responses_string)
+//@   decreases len(token_responses_string)
+//@ end
